@@ -22,12 +22,14 @@ Expressions are nested tuples (hashable):
   ("cyc", local)                    definition depends on itself (loop-carried)
 """
 import json
+import os
 import re
 import sys
 
 sys.setrecursionlimit(10000)
 
 TRANSPARENT_PAYLOAD = {"Some", "Ok", "Continue"}
+ENUMS = {}   # enum name -> frozenset of variant names (filled when facts are loaded)
 
 
 class Facts:
@@ -36,9 +38,21 @@ class Facts:
             self.raw = json.load(f)
         self.bodies = {}
         self.by_key = {}
-        for b in self.raw["bodies"]:
-            body = Body(self, b)
+        import inline as _inl
+        raws = {b["path"]: b for b in self.raw["bodies"]}
+        self.recursive = _inl.recursive_set(raws)
+        cache = {}
+        called = set()
+        for p, b in raws.items():
+            for cp in _inl.local_callees(b):
+                if cp != p:
+                    called.add(cp)
+        self.helper_paths = set()
+        for p, b in raws.items():
+            body = Body(self, _inl.inline_body(raws, p, self.recursive, cache) if not os.environ.get("SODG_NO_INLINE") else b)
             self.bodies[body.path] = body
+            if _inl.inlinable(b) and p not in self.recursive and p in called and not os.environ.get("SODG_NO_INLINE"):
+                self.helper_paths.add(p)
         for body in self.bodies.values():
             if body.kind != "Closure":
                 self.by_key.setdefault((body.self_adt, body.trait, body.name), []).append(body)
@@ -51,6 +65,9 @@ class Facts:
                 if root.kind == "Fn" and root.self_adt is None:
                     self.test_bodies.add(b.path)
         self.adts = {a["name"]: a for a in self.raw["adts"]}
+        for a in self.raw["adts"]:
+            if a["kind"] == "Enum":
+                ENUMS[a["name"]] = frozenset(v["name"] for v in a["variants"])
         self.impls = self.raw["impls"]
         self.unsafe = self.raw["unsafe"]
         self._closure_env = {}
@@ -68,6 +85,11 @@ class Facts:
 
     def all_bodies(self):
         return [b for b in self.bodies.values() if b.path not in self.test_bodies]
+
+    def roots(self):
+        """bodies analysed as roots: everything except closures and private non-recursive helpers (whose code is
+        physically inlined into their callers) — i.e. API functions, trait methods, recursive helpers, uncalled functions"""
+        return [b for b in self.all_bodies() if b.kind != "Closure" and b.path not in self.helper_paths]
 
 
 class Body:
@@ -520,9 +542,10 @@ class Body:
         return canon_call(self, c, args, site)
 
     # ------------------------------------------------------ path facts
-    def bool_arms(self, op, site, depth=0):
-        """for a bool operand that is (a copy / negation of) a local assigned constant true/false at
-        several sites (matches!, a && b as a value): list of (def_site, value); None otherwise"""
+    def bool_arms(self, op, site, depth=0, neg=False):
+        """for a bool operand that is (a copy / negation of) a local assigned at several sites — constants true/false
+        (matches!, `a && b` as a value) or comparisons (`let done = if grouped { n == 0 } else { false }`):
+        list of (def_site, const-or-None, rvalue, negated); None if not of that shape"""
         if op["k"] not in ("copy", "move") or op["place"]["proj"] or depth > 6:
             return None
         local = op["place"]["local"]
@@ -534,15 +557,19 @@ class Body:
             bb, idx = d
             blk = self.blocks[bb]
             if idx >= len(blk["stmts"]):
-                return None
+                if len(rds) == 1:
+                    return None
+                out.append((d, None, None, neg))   # a call result: nothing known on this arm
+                continue
             rv = blk["stmts"][idx]["rv"]
             if rv["k"] == "use" and rv["op"]["k"] == "const" and "val" in rv["op"] and rv["op"]["ty"] == "bool":
-                out.append((d, bool(rv["op"]["val"])))
+                out.append((d, bool(rv["op"]["val"]) != neg, None, neg))
             elif rv["k"] == "use" and rv["op"]["k"] in ("copy", "move") and len(rds) == 1:
-                return self.bool_arms(rv["op"], d, depth + 1)
+                return self.bool_arms(rv["op"], d, depth + 1, neg)
             elif rv["k"] == "unop" and rv["op"] == "Not" and len(rds) == 1:
-                sub = self.bool_arms(rv["x"], d, depth + 1)
-                return None if sub is None else [(s, not v) for s, v in sub]
+                return self.bool_arms(rv["x"], d, depth + 1, not neg)
+            elif len(rds) > 1:
+                out.append((d, None, rv, neg))
             else:
                 return None
         return out if len(out) > 1 else None
@@ -559,15 +586,130 @@ class Body:
             arms = self.bool_arms(t["op"], site)
             if arms is not None:
                 truth = (label[1] != 0) if label[0] == "eq" else (0 in label[1])
-                sel = [phase1.get(s[0], frozenset()) for s, v in arms if v == truth]
+                sel = []
+                for dsite, cval, rv, neg in arms:
+                    base = phase1.get(dsite[0], frozenset())
+                    if cval is not None:
+                        if cval == truth:
+                            sel.append(base)
+                    elif rv is not None:
+                        try:
+                            f = norm_cond(self.expr_rvalue(rv, dsite), truth != neg)
+                        except RecursionError:
+                            f = None
+                        if f is not None and f[0] == "const":
+                            if f[1]:
+                                sel.append(base)
+                        else:
+                            sel.append(fs_add(base, [f]) if f is not None else base)
+                    else:
+                        sel.append(base)
                 if sel:
                     acc = sel[0]
                     for x in sel[1:]:
-                        acc = acc & x
-                    return acc - phase1.get(bb, frozenset()) | frozenset()
+                        acc = fs_join(acc, x)
+                    return acc
                 return frozenset()
         f = self.edge_fact(bb, label)
-        return frozenset([f]) if f is not None else frozenset()
+        out = frozenset([f]) if f is not None else frozenset()
+        if phase1 is not None and f is not None and f[0] == "in" and len(f[2]) == 1:
+            arms = self.variant_arms(t["op"], site)
+            if arms is not None:
+                want = next(iter(f[2]))
+                sel = [phase1.get(s[0], frozenset()) for s, v in arms if v == want]
+                if sel:
+                    acc = sel[0]
+                    for x in sel[1:]:
+                        acc = fs_join(acc, x)
+                    out = fs_add(out, acc)
+        return out
+
+    def variant_arms(self, op, site):
+        """for a switch on the discriminant of a local that is assigned enum values of known variants at several sites
+        (an inlined helper returning Some(..)/None, a `let r = if .. {Ok(..)} else {Err(..)}`): list of (def_site, variant)"""
+        if op.get("k") not in ("copy", "move") or op["place"]["proj"]:
+            return None
+        ds = self.defs().get(op["place"]["local"], [])
+        if len(ds) != 1 or ds[0][2] != "assign" or ds[0][3]["k"] != "discr":
+            return None
+        place = ds[0][3]["place"]
+        if any(e["k"] != "deref" for e in place["proj"]):
+            return None
+        out = []
+        ok = self._variant_defs(place["local"], (ds[0][0], ds[0][1]), out, 0, bool(place["proj"]))
+        return out if ok and len(out) > 1 else None
+
+    def _variant_defs(self, local, site, out, depth, through_ref):
+        if depth > 6:
+            return False
+        rds = self.reaching_defs(local, site)
+        if not rds or ("entry",) in rds:
+            return False
+        for d in rds:
+            bb, idx = d
+            blk = self.blocks[bb]
+            if idx >= len(blk["stmts"]):
+                return False
+            rv = blk["stmts"][idx]["rv"]
+            if rv["k"] == "aggregate" and rv.get("agg") == "adt":
+                out.append((d, rv["variant"]))
+            elif rv["k"] == "use" and rv["op"].get("k") in ("copy", "move") and not rv["op"]["place"]["proj"]:
+                if not self._variant_defs(rv["op"]["place"]["local"], d, out, depth + 1, through_ref):
+                    return False
+            elif rv["k"] == "ref" and not rv["place"]["proj"] and through_ref:
+                if not self._variant_defs(rv["place"]["local"], d, out, depth + 1, False):
+                    return False
+            else:
+                return False
+        return True
+
+    def call_edge_facts(self, bb, phase1=None):
+        """facts that hold after a call returns: for `iter.find(pred)` the predicate holds of the item found (a statement
+        about that item, vacuous when nothing is found)"""
+        t = self.blocks[bb]["term"]
+        if t["k"] == "call" and t["callee"].get("name") in ("unwrap", "expect") and t["args"] and phase1 is not None and \
+                t["callee"].get("decl", "").startswith(("std::option::Option::<T>::", "std::result::Result::<T, E>::")):
+            # x.unwrap() returned: x was Some/Ok, so whatever held where that Some/Ok was built holds
+            op = t["args"][0]
+            if op.get("k") in ("copy", "move") and not op["place"]["proj"]:
+                out = []
+                if self._variant_defs(op["place"]["local"], (bb, self.term_idx(bb)), out, 0, False) and len(out) > 1:
+                    sel = [phase1.get(s[0], frozenset()) for s, v in out if v in ("Some", "Ok")]
+                    if sel:
+                        acc = sel[0]
+                        for x in sel[1:]:
+                            acc = fs_join(acc, x)
+                        return acc
+            return frozenset()
+        if t["k"] != "call" or t["callee"].get("decl") != "std::iter::Iterator::find" or len(t["args"]) != 2:
+            return frozenset()
+        site = (bb, self.term_idx(bb))
+        try:
+            args = self.call_args(t, site)
+            it = deref_addr(self, args[0])
+            cl = strip_load(deref_addr(self, args[1]))
+            if cl[0] != "closure":
+                return frozenset()
+            cb = self.facts.bodies.get(cl[1])
+            if cb is None:
+                return frozenset()
+            item = ("item", it, ("find", bb))
+            mapping = {("param", 2): item}
+            for ui, uop in enumerate(cl[2]):
+                ue = uop
+                if ue[0] == "addr":
+                    ue = self.expr_local(ue[1], ue[2])
+                mapping[("upvar", ui)] = ue
+            summ = pred_summary(cb)
+            if not summ:
+                return frozenset()
+            acc = None
+            for conj in summ:
+                fs = frozenset(unload_subst(subst(f, mapping)) for f in conj)
+                acc = fs if acc is None else (acc & fs)
+            return acc or frozenset()
+        except RecursionError:
+            return frozenset()
 
     def edge_fact(self, bb, label):
         """normalised fact that holds on the edge out of block bb with switch label"""
@@ -579,9 +721,10 @@ class Body:
             return None
         e = self.expr_operand(t["op"], site)
         if t["op_ty"] == "bool":
-            if label[0] == "eq":
-                return norm_cond(e, label[1] != 0)
-            return norm_cond(e, 0 in label[1])  # otherwise of [0:..] means true
+            f = norm_cond(e, (label[1] != 0) if label[0] == "eq" else (0 in label[1]))  # otherwise of [0:..] means true
+            if f[0] == "bool" and strip_load(f[1])[0] == "phi":
+                return None    # a flag assigned in several places: resolved by bool_arms in the second pass, useless as such
+            return f
         if e[0] == "discr":
             names = dict(zip(e[3], e[2]))
             subj = ("discr", strip_load(e[1]))
@@ -606,7 +749,10 @@ class Body:
             k = (p, l)
             if k not in efc:
                 try:
-                    efc[k] = self.edge_facts(p, l, phase1)
+                    if l is None:
+                        efc[k] = self.call_edge_facts(p, phase1) if phase1 is not None else frozenset()
+                    else:
+                        efc[k] = self.edge_facts(p, l, phase1)
                 except RecursionError:
                     efc[k] = frozenset()
             return efc[k]
@@ -619,8 +765,8 @@ class Body:
                 for p, l in self.pred[b]:
                     if p not in IN or IN[p] is TOP:
                         continue
-                    s = IN[p] | ef(p, l)
-                    acc = s if acc is TOP else (acc & s)
+                    s = fs_add(IN[p], ef(p, l))
+                    acc = s if acc is TOP else fs_join(acc, s)
                 if acc is not TOP and acc != IN[b]:
                     IN[b] = acc
                     changed = True
@@ -668,7 +814,10 @@ class Body:
     def where(self, site=None):
         if site is None:
             return self.span
-        return "%s:%s" % (self.file, self.line(site))
+        bb, idx = site
+        blk = self.blocks[bb]
+        node = blk["stmts"][idx] if idx < len(blk["stmts"]) else blk["term"]
+        return "%s:%s" % (node.get("ifile") or self.file, node.get("line"))
 
     def local_name(self, l):
         return self.names.get(l, "_%d" % l)
@@ -816,6 +965,19 @@ def canon_call(body, c, args, site):
         return ("iter", a0, name) if len(args) == 1 else ("iter", a0, name, tuple(args[1:]))
     if decl == "std::iter::Iterator::next":
         return ("next", a0, site[0])
+    if decl == "std::iter::Iterator::find" and len(args) == 2:
+        return ("find", a0, deref_addr(body, args[1]), site[0])
+    if decl.startswith("std::option::Option::<T>::") and name == "unwrap_or" and len(args) == 2:
+        return ("phi", (payload(a0), deref_addr(body, args[1])))
+    if decl.startswith("std::option::Option::<T>::") and name in ("map", "copied", "cloned") and args:
+        inner = strip_load(a0)
+        if name in ("copied", "cloned"):
+            if inner[0] in ("find", "opt"):
+                return ("opt", payload(inner))
+        else:
+            proj = closure_projection(body, deref_addr(body, args[1]))
+            if proj is not None and inner[0] in ("find", "opt", "call"):
+                return ("optmap", subst(proj, {("param", 2): payload(inner)}), inner)
     if decl.startswith("std::iter::Iterator::") or decl.startswith("itertools::Itertools::"):
         if name in ("filter", "map", "enumerate", "skip", "copied", "cloned", "sorted", "sorted_by_key",
                     "sorted_by", "sorted_unstable", "rev", "take", "step_by", "filter_map", "skip_while",
@@ -831,8 +993,83 @@ def deref_addr(body, e):
     return e
 
 
+def closure_projection(body, cl):
+    """for a closure that merely projects its argument (|(v, _)| v, |e| *e.1): its result as an expression over ("param", 2)"""
+    cl = strip_load(cl)
+    if cl[0] != "closure":
+        return None
+    cb = body.facts.bodies.get(cl[1])
+    if cb is None or cb.arg_count != 2 or len(cb.returns) != 1 or any(True for _ in cb.calls()):
+        return None
+    r = cb.returns[0]
+    e = unload(cb.expr_local(0, (r, cb.term_idx(r))))
+    ok = all(x[0] in ("param", "field", "tuple") for x in walk(e)) and mentions(e, lambda x: x == ("param", 2)) and \
+        not mentions(e, lambda x: x[0] == "param" and x[1] != 2)
+    return e if ok else None
+
+
+def unload(e):
+    """drop load wrappers everywhere (locations and their values are identified)"""
+    if not isinstance(e, tuple) or not e:
+        return e
+    if isinstance(e, frozenset):
+        return e
+    if e[0] == "load":
+        return unload(e[1])
+    return tuple(unload(x) if isinstance(x, tuple) else x for x in e)
+
+
+def unload_subst(f):
+    """after substituting an item for a closure parameter: loads of the parameter's fields are loads of the item's"""
+    return f
+
+
+def pred_summary(cb):
+    """for a bool-returning closure body: list of fact sets; the closure returns true iff one of
+    the conjunctions holds (a && b in MIR is a diamond writing the return place)."""
+    out = []
+    for d in cb.defs().get(0, []):
+        bb, idx, kind, pl = d
+        site = (bb, idx)
+        facts = set(cb.facts_at(site))
+        if kind == "assign":
+            e = cb.expr_rvalue(pl, site)
+        else:
+            e = cb.expr_call(pl, site)
+        if e[0] == "const":
+            if e[1]:
+                out.append(frozenset(facts))
+            continue
+        f = norm_cond(e, True)
+        facts.add(f)
+        out.append(frozenset(facts))
+    return out
+
+
 def payload(e):
     core = strip_load(e)
+    if core[0] == "find":
+        return ("item", core[1], ("find", core[3]))
+    if core[0] == "optmap":
+        return core[1]
+    if core[0] == "phi":
+        # the success payload of a value that is one of several Option/Result values: only the Some/Ok arms carry one
+        arms = []
+        for a in core[1]:
+            a0 = strip_load(a)
+            if a0[0] == "agg" and a0[2] in ("None", "Err", "Break"):
+                continue
+            if a0[0] == "call" and a0[1].split("::")[-1] == "from_residual":
+                continue
+            p = payload(a0)
+            if p not in arms:
+                arms.append(p)
+        if len(arms) == 1:
+            return arms[0]
+        if arms:
+            return ("phi", tuple(arms))
+    if core[0] == "agg" and core[2] in ("Some", "Ok", "Continue") and len(core[3]) == 1:
+        return core[3][0][1]
     if core[0] == "opt":
         return core[1]
     if core[0] == "ctx":
@@ -891,6 +1128,8 @@ def norm_cond(e, truth):
         subj = ("discr", strip_load(l))
         if op == "==":
             return ("in", subj, frozenset([v[1]]))
+        if v[0] in ENUMS:
+            return ("in", subj, ENUMS[v[0]] - frozenset([v[1]]))
         return ("notin", subj, frozenset([v[1]]))
     if r[0] == "const" and isinstance(r[1], int):
         c = r[1]
@@ -921,6 +1160,77 @@ def norm_cond(e, truth):
 def _is_constlike(e):
     e = strip_load(e)
     return e[0] in ("const", "str") or (e[0] == "agg" and not e[3])
+
+
+UNIVERSES = [frozenset(["None", "Some"]), frozenset(["Ok", "Err"]), frozenset(["Continue", "Break"])]
+
+
+def trivial_fact(f):
+    """a value-set fact that excludes nothing"""
+    if f[0] == "in":
+        if f[2] in UNIVERSES:
+            return True
+        s = strip_load(f[1])
+        if s[0] == "discr":
+            for u in ENUMS.values():
+                if f[2] == u:
+                    return True
+    if f[0] == "notin" and not f[2]:
+        return True
+    return False
+
+
+def fs_add(S, facts):
+    """add facts to a fact set, combining value sets of the same subject"""
+    if not facts:
+        return S
+    out = set(S)
+    for f in facts:
+        if f[0] not in ("in", "notin"):
+            out.add(f)
+            continue
+        cur = f
+        for g in list(out):
+            if g[0] in ("in", "notin") and g[1] == cur[1] and g is not cur:
+                out.discard(g)
+                if g[0] == "in" and cur[0] == "in":
+                    cur = ("in", cur[1], g[2] & cur[2])
+                elif g[0] == "in" and cur[0] == "notin":
+                    cur = ("in", cur[1], g[2] - cur[2])
+                elif g[0] == "notin" and cur[0] == "in":
+                    cur = ("in", cur[1], cur[2] - g[2])
+                else:
+                    cur = ("notin", cur[1], g[2] | cur[2])
+        if not trivial_fact(cur):
+            out.add(cur)
+    return frozenset(out)
+
+
+def fs_join(A, B):
+    """facts that hold on either of two paths: common facts, and for a subject constrained on both paths the union of its
+    value sets"""
+    if A == B:
+        return A
+    out = set(A & B)
+    ia = {f[1]: f for f in A if f[0] in ("in", "notin")}
+    ib = {f[1]: f for f in B if f[0] in ("in", "notin")}
+    for subj, fa in ia.items():
+        fb = ib.get(subj)
+        if fb is None or fa == fb:
+            continue
+        if fa[0] == "in" and fb[0] == "in":
+            if not trivial_fact(("in", subj, fa[2] | fb[2])):
+                out.add(("in", subj, fa[2] | fb[2]))
+        elif fa[0] == "notin" and fb[0] == "notin":
+            common = fa[2] & fb[2]
+            if common:
+                out.add(("notin", subj, common))
+        else:
+            i, n = (fa, fb) if fa[0] == "in" else (fb, fa)
+            rest = n[2] - i[2]
+            if rest:
+                out.add(("notin", subj, rest))
+    return frozenset(out)
 
 
 def negate_fact(f):
